@@ -7,6 +7,8 @@ package main
 import (
 	"encoding/json"
 	"fmt"
+
+	actypes "github.com/artela-network/aspect-core/types"
 )
 
 var f2Flavours = []string{"generic", "oog", "revert", "wrapped"}
@@ -68,6 +70,35 @@ func faultVariants(sc *Scenario, t0 *TreeOut, o enumOpts, r *RNG) []*Scenario {
 		} else {
 			for i := 0; i < o.f3; i++ {
 				out = append(out, f3[r.Intn(len(f3))])
+			}
+		}
+	}
+	// C06: hand the outermost call exactly what its pre join point consumes (and one more /
+	// one less), so that the Aspects leave exactly zero gas without running out
+	if o.burns && len(t0.Env.Results) > 0 {
+		i := len(t0.Env.Results) - 1
+		for _, f := range t0.H.Roots {
+			if f.Tx != i || f.Typ != 0xf1 || f.Create {
+				continue
+			}
+			var first *Ev
+			for _, a := range f.AspIn {
+				if actypes.JoinPointRunType(a.JP) == actypes.JoinPointRunType_PreContractCall {
+					first = a
+					break
+				}
+			}
+			last := lastAspOut(f, actypes.JoinPointRunType_PreContractCall)
+			if first == nil || last == nil || last.Err != "" || first.Gas <= last.Gas {
+				continue
+			}
+			cost := first.Gas - last.Gas
+			for _, g := range []uint64{cost, cost + 1, cost - 1} {
+				if g > 0 && g < sc.Execs[0].Txs[i].Gas {
+					c := sc.Clone()
+					c.Faults = append(c.Faults, Fault{Kind: "gas", Tx: i, N: g})
+					out = append(out, c)
+				}
 			}
 		}
 	}
